@@ -1070,8 +1070,9 @@ def join_states(ctx, a, b, tag, widen=False, thresholds=()):
             inv_a2.setdefault(t, s_)
         for s_, t in mb.items():
             inv_b2.setdefault(t, s_)
+        cand_pairs = {t: (xa, xb) for (xa, xb), t in pair.items()}
         for t in out.itv:
-            xa, xb = inv_a2.get(t), inv_b2.get(t)
+            xa, xb = cand_pairs.get(t, (inv_a2.get(t), inv_b2.get(t)))
             if xa in a.res and xb in b.res:
                 pa, pb = a.res[xa], b.res[xb]
                 if pa == pb:
